@@ -279,7 +279,20 @@ fn small_map(mode: u8) -> Beatmap {
     } else {
         vec![o(Kind::Circle, 0, PosK::Same), o(Kind::Slider2, 150, PosK::Far), o(Kind::Circle, 300, PosK::Far), o(Kind::Circle, 150, PosK::Far)]
     };
-    MapSpec::new(mode, objs).decode()
+    let spec = MapSpec::new(mode, objs);
+    if mode != 3 {
+        return spec.decode();
+    }
+    // mania: the first note left of the playfield, the last one right of it (files carry any x up to +-131072)
+    let text = spec.text();
+    let (head, objects) = text.split_once("[HitObjects]\n").expect("section");
+    let mut lines: Vec<String> = objects.lines().map(str::to_owned).collect();
+    let n = lines.len();
+    for (i, x) in [(0, "-100"), (n - 1, "600")] {
+        let rest = lines[i].split_once(',').expect("x,rest").1.to_owned();
+        lines[i] = format!("{x},{rest}");
+    }
+    Beatmap::from_bytes(format!("{head}[HitObjects]\n{}\n", lines.join("\n")).as_bytes()).expect("decodes")
 }
 
 /// Exact natively; under Miri the last bits of some float intrinsics are perturbed on purpose, so a relative 1e-9 applies.
@@ -683,7 +696,7 @@ fn main() {
     }
 
     let ctx = Ctx::from_env("C11");
-    ctx.rule("universes: 'strainsvec/*' = BFS over all operation histories (push of 10 values incl. subnormal, +-0, -1, +-NaN, inf; len; iter with ExactSizeIterator::len after every step; sum; clone; retain_non_zero; sort_desc; retain_non_zero_and_sort; sorted_non_zero_iter_mut + scale by 3/4 (values stay positive: the list's invariant); into_vec; transmute_into_vec — preconditions of the unsafe / debug-asserted methods respected) to depth 6 (quick) / 7 from every 2-push prefix, against a plain Vec<f64>, key = (reference content, may-contain-zero flag); executed by this release build and by workers built with debug assertions, for the default and the raw_strains list; 'sorts' = every key array of length <= 7 over 3 keys for TandemSorter (stable, tandem, reuse), the C# introsort port, the legacy hit-object sort and LimitedQueue; 'miri' = the same StrainsVec BFS at depth 3/4, every move/box/vec/swap/drop history of gradual calculators (depth 2 on osu!+taiko / 3 on all modes; natively to depth 4 in workers built with debug assertions, where an out-of-bounds get_unchecked aborts), the same for calculators built from a Difficulty that carries passed_objects(0|1) (next / nth(1) histories), the decoder on every malformed slider path of <= 3 segments followed by a well-formed slider, and the sorts, all interpreted by Miri (cargo +nightly miri run): any undefined behaviour fails the check; non-trivial = every history");
+    ctx.rule("universes: 'strainsvec/*' = BFS over all operation histories (push of 10 values incl. subnormal, +-0, -1, +-NaN, inf; len; iter with ExactSizeIterator::len after every step; sum; clone; retain_non_zero; sort_desc; retain_non_zero_and_sort; sorted_non_zero_iter_mut + scale by 3/4 (values stay positive: the list's invariant); into_vec; transmute_into_vec — preconditions of the unsafe / debug-asserted methods respected) to depth 6 (quick) / 7 from every 2-push prefix, against a plain Vec<f64>, key = (reference content, may-contain-zero flag); executed by this release build and by workers built with debug assertions, for the default and the raw_strains list; 'sorts' = every key array of length <= 7 over 3 keys for TandemSorter (stable, tandem, reuse), the C# introsort port, the legacy hit-object sort and LimitedQueue; 'miri' = the same StrainsVec BFS at depth 3/4, every move/box/vec/swap/drop history of gradual calculators (depth 2 on osu!+taiko / 3 on all modes; natively to depth 4 in workers built with debug assertions, where an out-of-bounds get_unchecked aborts), the same for calculators built from a Difficulty that carries passed_objects(0|1) (next / nth(1) histories), the decoder on every malformed slider path of <= 3 segments followed by a well-formed slider, and the sorts, all interpreted by Miri (cargo +nightly miri run): any undefined behaviour fails the check (the mania map of the Miri walks has its first note left and its last note right of the playfield); 'off-playfield/unsafe-contracts' = three objects with x in {+-100000, +-600, -1, 0, 511, 512} squared x y in {-600, 192, 100000} x {circle, long object}, 4 native modes and all conversions, in workers with debug assertions and the contract monitor; non-trivial = every history");
     ctx.assume("Miri is the monitor for invalid accesses; the nightly toolchain with miri is available offline");
 
     let root = PathBuf::from(std::env::var("VERIF_ROOT").unwrap_or_else(|_| "/verif".into()));
@@ -882,6 +895,46 @@ fn main() {
                 }
             });
         }
+        // objects far outside the playfield, in every mode (positions feed float -> integer conversions: columns, grid cells)
+        let xs: [i32; 8] = [-100_000, -600, -1, 0, 511, 512, 600, 100_000];
+        let ys: [i32; 3] = [-600, 192, 100_000];
+        let total = 4 * (xs.len() * xs.len() * ys.len() * 2) as u64;
+        ctx.universe_isolated("off-playfield/unsafe-contracts", total, 20.0, 2048, |idx, l| {
+            let mut r = idx;
+            let mut take = |n: usize| { let v = (r % n as u64) as usize; r /= n as u64; v };
+            let (mode, x1, x2, y, long) = (take(4) as u8, xs[take(8)], xs[take(8)], ys[take(3)], take(2) == 1);
+            let second = match (long, mode) {
+                (false, _) => format!("{x2},{y},1150,1,0,0:0:0:0:"),
+                (true, 3) => format!("{x2},{y},1150,128,0,1450:0:0:0:0:"),
+                (true, _) => format!("{x2},{y},1150,2,0,L|{}:{y},1,50", x2 + 50),
+            };
+            let text = format!("osu file format v14\n[General]\nMode: {mode}\n[Difficulty]\nCircleSize:4\nOverallDifficulty:7\nSliderMultiplier:1.4\n[TimingPoints]\n0,500,4,2,0,60,1,0\n[HitObjects]\n{x1},192,1000,1,0,0:0:0:0:\n{second}\n{x1},{y},1300,1,0,0:0:0:0:\n");
+            let map = Beatmap::from_bytes(text.as_bytes()).expect("decodes");
+            l.states(1);
+            l.nontrivial();
+            if l.want_sample() {
+                let mut o = J::obj();
+                o.set("universe", J::s("off-playfield/unsafe-contracts"));
+                o.set("index", J::i(idx));
+                o.set("objects", J::s(format!("mode {mode}: x1={x1} x2={x2} y={y} long={long}")));
+                l.sample(o);
+            }
+            for dst in if mode == 0 { vec![0u8, 1, 2, 3] } else { vec![mode] } {
+                for d in [Difficulty::new(), Difficulty::new().mods(80u32)] {
+                    let r = std::panic::catch_unwind(std::panic::AssertUnwindSafe(|| {
+                        let a = api::difficulty(&d, &map, dst).expect("convertible");
+                        let s = api::strains(&d, &map, dst).expect("convertible");
+                        let g = api::gradual(d.clone(), &map, dst).expect("convertible").count();
+                        std::hint::black_box((a, s, g));
+                    }));
+                    l.checked(3);
+                    if r.is_err() {
+                        l.violation("unsafe_contract_or_panic", || format!("mode {mode} -> {dst}: a calculation panicked (with the hooks on, a broken safety contract of an unsafe fn panics)\n--- .osu ---\n{text}"));
+                        return;
+                    }
+                }
+            }
+        });
         ctx.set_worker_exe(None);
     }
 
